@@ -579,7 +579,7 @@ func c18Spaces(c *fw.Ctx) {
 			}
 		})
 
-	c.Space("keys", "messages {query, reply3} × Compress × 6 algorithms × keys {matching; same owner+algorithm but other key material; each of the 5 other algorithms' keys under the same owner; matching material under 5 other owner names; SIG signed with another signer name} and owner-name case variants {lower, upper, swapped}: error unless key and name match (case-insensitively); non-trivial: the matching key verified", true,
+	c.Space("keys", "messages {query, reply3} × Compress × 6 algorithms × keys {matching; same owner+algorithm but other key material; each of the 5 other algorithms' keys under the same owner; matching material under 5 other owner names; SIG signed with another signer name; a signer name with the octets [ ] \\ @ ^ _ ` 1 - against the key under that name and under each name that differs in one octet by 0x20} and owner-name case variants {lower, upper, swapped}: error unless key and name match (case-insensitively); non-trivial: the matching key verified", true,
 		func(emit func(func(*fw.R))) {
 			for _, ms := range c18Msgs {
 				if ms.name != "query" && ms.name != "reply3" {
@@ -868,6 +868,38 @@ func c18Keys(r *fw.R, ms c18Msg, compress bool, a c18Alg) {
 		try("SIG signed with signer name other.example., verified with the key", k.rr, k.ref, k.ownerWire, out2, other)
 	} else {
 		r.Fail("sign/error", "%s: Sign with signer name other.example.: %v", id, err)
+	}
+	// a signer name with non-letter octets that have a partner 0x20 away ([ ] \ @ ^ _ ` digits, hyphen):
+	// the key under exactly that name verifies, under the name with any single octet of the first
+	// label xor 0x20 it verifies only if that octet is a letter (RFC 4343 folds letters only)
+	special := [][]byte{[]byte("k[1]\\@^_`-z"), []byte("sig0"), []byte("example")}
+	// spelled as the library's own unpacker spells them (plumbing): Verify compares presentation strings
+	libSpelling := func(labels [][]byte) string {
+		n, _, err := dns.UnpackDomainName(rn.Wire(labels), 0)
+		if err != nil {
+			panic(err)
+		}
+		return n
+	}
+	spName := libSpelling(special)
+	sp := c18NewSIG(a, k, spName, inc, exp)
+	if out3, err := sp.Sign(k.priv, m); err == nil {
+		try("SIG signed with signer name "+spName+", key under that name", withName(k.rr, spName), k.ref, rn.Wire(special), out3, sp)
+		// the same key owner with every special octet written as \DDD: the same name in another spelling
+		if alt := rn.Escape(special, true); alt != spName {
+			_, rerr := rs.Verify(out3, k.ref, rn.Wire(special))
+			if err, _ := c18Verify(sp, withName(k.rr, alt), out3); rerr == nil && err != nil {
+				r.Fail("verify/matching-key-rejected/other-spelling", "%s: signer %q, key owner %q (the same name, @ written as \\064): SIG.Verify = %v, the reference verifies", id, spName, alt, err)
+			}
+		}
+		for i := range special[0] {
+			v := [][]byte{append([]byte(nil), special[0]...), special[1], special[2]}
+			v[0][i] ^= 0x20
+			vn := libSpelling(v)
+			try(fmt.Sprintf("SIG signed with signer name %s, key under %s (octet %d of the first label xor 0x20)", spName, vn, i), withName(k.rr, vn), k.ref, rn.Wire(v), out3, sp)
+		}
+	} else {
+		r.Fail("sign/error", "%s: Sign with signer name %s: %v", id, spName, err)
 	}
 	r.Sample(func() any { return id })
 }
